@@ -75,11 +75,13 @@ CALLERS = {
     'developer-browser': ('tok-dev', 'dev', 'cookie'),
 }
 TOKENS = {tok: USERDATA[u] for tok, u, _ in CALLERS.values() if u}
+Q_CALLERS_QUICK = ('u1', 'u2', 'nonmember')
 QUICK_CALLERS = ['anonymous', 'unknown-token', 'inactive', 'u1', 'u2', 'u2-browser', 'nonmember', 'developer', 'auth']
 CALLER_ORDER = list(CALLERS)
 API_TOKEN = '<token shown to this caller by GET /api/v1alpha/batches/{batch_id}>'
 
 NONEXISTENT_BATCH = 99
+ZOO_STATES = {1: 'Success', 2: 'Failed', 3: 'Error', 4: 'Running', 5: 'Cancelled', 6: 'Ready', 7: 'Creating', 8: 'Pending'}
 BATCH_TARGETS = (1, 2, 3, 4, 5, 6, NONEXISTENT_BATCH)
 BP_TARGETS = ('bp', 'bp2', 'bpc', 'nope')
 LOGIN_PREFIX = None  # filled in lazily: deploy_config.external_url('auth', '/user')
@@ -219,14 +221,20 @@ def world():
     for bp, u in (('bp', 'ui'), ('bp2', 'ui'), ('bpc', 'u1')):
         q("INSERT INTO billing_project_users (billing_project, user, user_cs) VALUES (%s, %s, %s)", (bp, u, u))
 
-    G, J = bf.G, ops.job_spec
+    G = bf.G
+
+    def J(i, **kw):   # every job carries attributes so that attribute search terms have something to match
+        d = ops.job_spec(i, **kw)
+        d['attributes'] = {'name': f'j{i}', 'kind': 'x'}
+        return d
+
     rs = (('r/a/1', 10), ('r/b/1', 5))
     saved_bid = ops.BID
     plan = [('u1', 'bp', 'tb1', False), ('u2', 'bp2', 'tb2', True), ('u1', 'bp', 'tb3', True), ('u2', 'bp', 'tb4', True),
             ('ui', 'bp', 'tb5', False)]
     try:
         for user, bp, tok, finish in plan:
-            spec = {'billing_project': bp, 'n_jobs': 2, 'n_job_groups': 1, 'token': tok}
+            spec = {'billing_project': bp, 'n_jobs': 2, 'n_job_groups': 1, 'token': tok, 'attributes': {'name': f'n-{tok}', 'team': 'x'}}
             bid = w.run(fe._create_batch(spec, USERDATA[user], w.gdb))
             ops.BID = bid
 
@@ -258,13 +266,24 @@ def world():
         ops.BID = w.run(fe._create_batch(spec, USERDATA['u1'], w.gdb))
         A(('new_update', 'u1', 'tb6', 1, 0))
         A(('add_jobs', 'u1', 1, [J(1, abs_group=0)]))
+        # batch 7 (never a request target): u2's batch in bp2 with one job in EVERY job state -- the bait that makes a listing
+        # which escapes its batch / billing-project restriction visible whatever state filter it uses
+        spec = {'billing_project': 'bp2', 'n_jobs': 8, 'n_job_groups': 1, 'token': 'tb7', 'attributes': {'name': 'n-tb7', 'team': 'y'}}
+        ops.BID = w.run(fe._create_batch(spec, USERDATA['u2'], w.gdb))
+        A(('new_update', 'u2', 'tb7', 8, 1))
+        A(('add_groups', 'u2', 1, [G(1, parent_abs=0)]))
+        A(('add_jobs', 'u2', 1, [J(i, abs_group=0) for i in (1, 2, 3, 4)] + [J(i, group=1) for i in (5, 6, 7)] + [J(8, group=1, parents=[4])]))
+        A(('commit_tail', 'u2', 1))
+        for jid, st in ZOO_STATES.items():
+            q("UPDATE jobs SET state = %s WHERE batch_id = %s AND job_id = %s", (st, ops.BID, jid))
     finally:
         ops.BID = saved_bid
     q("UPDATE batches SET deleted = 1 WHERE id = 3")
     w.run(_drain(w))
 
     truth = truth_from_tables(w)
-    assert sorted(truth['batches']) == [1, 2, 3, 4, 5, 6], truth
+    assert sorted(truth['batches']) == [1, 2, 3, 4, 5, 6, 7], truth
+    assert {j['state'] for j in w.table('jobs') if j['batch_id'] == 7} == set(ZOO_STATES.values())
     assert not truth['batches'][6]['first_update_committed'] and truth['batches'][1]['first_update_committed']
     assert truth['batches'][3]['deleted'] and not truth['batches'][1]['deleted']
 
@@ -290,6 +309,10 @@ def truth_from_tables(w):
     }
     for r in w.table('billing_project_users'):
         truth['members'].setdefault(r['billing_project'], set()).add(r['user'])
+    truth['job_group_of'] = {(j['batch_id'], j['job_id']): j['job_group_id'] for j in w.table('jobs')}
+    truth['group_ancestors'] = {}
+    for r in w.table('job_group_self_and_ancestors'):
+        truth['group_ancestors'].setdefault((r['batch_id'], r['job_group_id']), {})[r['ancestor_id']] = r['level']
     return truth
 
 
@@ -457,6 +480,64 @@ def route_table():
 # ------------------------------------------------------------------------------------------------------
 
 
+# ------------------------------------------------------------------------------------------------------
+# search queries for the listing routes: every branch of front_end/query/{query,query_v1,query_v2}.py term parsing
+# ------------------------------------------------------------------------------------------------------
+JOB_STATE_TERMS = ('pending', 'ready', 'creating', 'running', 'live', 'cancelled', 'error', 'failed', 'bad', 'success', 'done')
+BATCH_STATE_TERMS = ('open', 'closed', 'complete', 'running', 'cancelled', 'failure', 'success')
+T0, T1 = '2000-01-01T00:00:00Z', '2100-01-01T00:00:00Z'
+
+
+def _pairs(alphabet):
+    return [(a, b) for a in alphabet for b in alphabet if a != b]
+
+
+def q_jobs_v1():
+    """v1 job search: blank separated terms, '!' negates."""
+    singles = list(JOB_STATE_TERMS) + ['!' + t for t in JOB_STATE_TERMS] + \
+        ['name=j1', '!name=j1', 'kind=x', 'name=nope', 'job_id=1', '!job_id=1', 'has:name', '!has:name', 'has:nope', 'bogus', '!bogus']
+    alphabet = ('live', 'bad', 'done', 'success', '!live', '!done', 'name=j1', 'has:kind', 'job_id=2')
+    return singles + [f'{a} {b}' for a, b in _pairs(alphabet)] + ['live bad done', 'done !bad name=j1']
+
+
+def q_jobs_v2():
+    """v2 job search: one '<left> <op> <right>' / word / "quoted word" per line."""
+    singles = [f'state = {t}' for t in JOB_STATE_TERMS] + [f'state != {t}' for t in JOB_STATE_TERMS] + [
+        'state == done', 'state =~ live', 'state = nosuchstate',
+        'job_id = 1', 'job_id != 1', 'job_id >= 2', 'job_id < 2', 'job_id =~ 1', 'job_id = x',
+        'instance = i1', 'instance != i1', 'instance =~ i', 'instance !~ i', 'instance > i1',
+        'instance_collection = standard', 'instance_collection != standard', 'instance_collection =~ stand', 'instance_collection !~ stand',
+        f'start_time >= {T0}', f'start_time < {T1}', 'start_time >= yesterday', f'end_time <= {T1}', f'end_time > {T0}', f'end_time =~ {T0}',
+        'duration >= 0', 'duration < 1', 'duration = x', 'cost >= 0', 'cost < $1', 'cost =~ 1', 'exit_code = 0', 'exit_code != 0', 'exit_code > x',
+        '"j1"', '"x"', '"j', 'j', 'nope', 'j"', 'name = j1', 'name != j1', 'name =~ j', 'name !~ j', 'kind = x', 'name > j1',
+        'two words', 'a = b = c']
+    alphabet = ('state = live', 'state = bad', 'state = done', 'state != live', 'state != done', 'name = j1', 'job_id >= 2', 'j', '"x"')
+    return singles + [f'{a}\n{b}' for a, b in _pairs(alphabet)] + [f'start_time >= {T0}\nend_time <= {T1}', f'end_time <= {T1}\nstart_time > {T0}\nstate = done',
+                                                                  'state = live\nstate = bad\nstate = done']
+
+
+def q_batches_v1():
+    singles = list(BATCH_STATE_TERMS) + ['!' + t for t in BATCH_STATE_TERMS] + [
+        'name=n-tb2', '!name=n-tb2', 'team=x', 'team=y', 'has:name', '!has:name', 'has:nope', 'user:u1', 'user:u2', '!user:u1', 'user:ui',
+        'billing_project:bp', 'billing_project:bp2', '!billing_project:bp', '!billing_project:bp2', 'billing_project:nope', 'bogus', '!bogus']
+    alphabet = ('user:u2', '!user:u1', 'billing_project:bp2', '!billing_project:bp', 'complete', '!running', 'success', 'has:team', 'team=y')
+    return singles + [f'{a} {b}' for a, b in _pairs(alphabet)] + ['complete success !failure', '!billing_project:bp user:u2 team=y']
+
+
+def q_batches_v2():
+    singles = [f'state = {t}' for t in BATCH_STATE_TERMS] + [f'state != {t}' for t in BATCH_STATE_TERMS] + [
+        'state =~ open', 'state = nosuchstate',
+        'batch_id = 2', 'batch_id != 1', 'batch_id >= 2', 'batch_id < 3', 'batch_id = x', 'batch_id =~ 2',
+        'billing_project = bp', 'billing_project = bp2', 'billing_project != bp', 'billing_project != bp2', 'billing_project =~ bp',
+        'user = u1', 'user = u2', 'user != u1', 'user = ui', 'user =~ u',
+        f'start_time >= {T0}', f'start_time < {T1}', 'start_time >= yesterday', f'end_time <= {T1}', f'end_time > {T0}', f'end_time =~ {T0}',
+        'duration >= 0', 'duration < 1', 'duration = x', 'cost >= 0', 'cost < $1', 'cost =~ 1',
+        '"n-tb2"', '"y"', '"n', 'n-tb', 'nope', 'n"', 'name = n-tb2', 'name != n-tb2', 'name =~ tb', 'name !~ tb', 'team = y', 'name > n',
+        'two words', 'a = b = c']
+    alphabet = ('user = u2', 'user != u1', 'billing_project = bp2', 'billing_project != bp', 'state = complete', 'state != running', 'team = y', 'tb', '"y"')
+    return singles + [f'{a}\n{b}' for a, b in _pairs(alphabet)] + [f'start_time >= {T0}\nend_time <= {T1}', f'end_time <= {T1}\nstart_time > {T0}\nuser = u2']
+
+
 def _job(i):
     from vf import batchops as ops
 
@@ -506,6 +587,16 @@ def request_variants(method, path, cls, target):
         add('plain')
         if path.endswith('/jobs') or path == '/batches/{batch_id}':
             add('recursive', query={'recursive': 'true'} if path.endswith('/jobs') else {'q': ''})
+            # search queries (tag 'q'): v1 syntax on the v1alpha API, v2 syntax on v2alpha and on the UI page (CURRENT_QUERY_VERSION)
+            v2 = 'v2alpha' in path or not path.startswith('/api/')
+            for qs in (q_jobs_v2() if v2 else q_jobs_v1()):
+                add(f'q={qs!r}', query={'q': qs}, tag='q')
+                if path.endswith('/jobs') and any(t in qs for t in ('live', 'bad', 'done')):
+                    add(f'recursive, q={qs!r}', query={'q': qs, 'recursive': 'true'}, tag='q')
+            if path.endswith('/jobs'):
+                add('page after job 1', query={'last_job_id': '1'}, tag='q')
+        elif path.endswith('/job-groups'):
+            add('page after group 0', query={'last_job_group_id': '0'}, tag='q')
     elif cls == 'bp-admin':
         ui = not path.startswith('/api/')
         if path.endswith('/edit'):
@@ -536,6 +627,9 @@ def request_variants(method, path, cls, target):
             add('all', query={'q': ''})
             add('other user', query={'q': 'user = u2' if v2 else 'user:u2'})
             add('foreign project', query={'q': 'billing_project = bp2' if v2 else 'billing_project:bp2'})
+            for qs in (q_batches_v2() if v2 else q_batches_v1()):
+                add(f'q={qs!r}', query={'q': qs}, tag='q')
+            add('page before batch 7', query={'q': '', 'last_batch_id': '7'}, tag='q')
     elif cls == 'list-billing':
         add('since 2024', query={'start': '01/01/2024'})
     elif cls in ('list-billing-projects', 'bp-admin-page', 'authenticated', 'public'):
@@ -752,7 +846,8 @@ def judge(ctx, case, truth, fresh_session_cache=True):
                      f'{who}: caller is inside the class "{cls}" for this target but was refused with {status} {reason or ""}'))
     # content oracles ---------------------------------------------------------------------------------
     if resp is not None and status == 200 and user is not None:
-        viol += content_check(truth, cls, path, caller, target, resp, who)
+        viol += content_check(truth, cls, path, caller, target, resp, who, url_params=params,
+                              recursive=(query or {}).get('recursive') == 'true' or not path.startswith('/api/'))
         out['listed'] = getattr(resp, '_c14_listed', None)
     out['viol'] = viol
     return out
@@ -835,8 +930,9 @@ def batch_scoped_requests(fe, target):
         m, p = getattr(r, 'method', None), getattr(r, 'path', None)
         cls = classify(m, p) if m else None
         if cls in ('batch-read', 'batch-cancel-delete', 'batch-write'):
-            for v in range(len(request_variants(m, p, cls, target) or ())):
-                out.append((i, v))
+            for v, var in enumerate(request_variants(m, p, cls, target) or ()):
+                if var[5] != 'q':
+                    out.append((i, v))
     return out
 
 
@@ -903,7 +999,7 @@ def _payload(resp):
     return 'raw', body
 
 
-def content_check(truth, cls, path, caller, target, resp, who):
+def content_check(truth, cls, path, caller, target, resp, who, url_params=None, recursive=False):
     """Everything a response shows must be something the caller may read."""
     tok, user, _ = CALLERS[caller]
     ud = USERDATA[user]
@@ -944,20 +1040,42 @@ def content_check(truth, cls, path, caller, target, resp, who):
         if not readable_bp(data.get('billing_project')):
             viol.append((f'listing-leaks-billing-project:{path}', f'{who}: response shows billing project {data.get("billing_project")}'))
     elif cls == 'batch-read' and isinstance(data, dict):
-        # whatever a batch-scoped read returns must belong to the batch named in the URL
+        # whatever a batch-scoped read returns must belong to the batch (and the job group) named in the URL
         ids = set()
-        for key in ('jobs', 'job_groups'):
-            for j in data.get(key, []) if isinstance(data.get(key), list) else []:
-                if isinstance(j, dict) and 'batch_id' in j:
-                    ids.add(j['batch_id'])
-        if 'batch' in data and isinstance(data['batch'], dict) and 'id' in data['batch']:
-            ids.add(data['batch']['id'])
+        page_batch = data.get('batch') if isinstance(data.get('batch'), dict) else {}
+        jobs = [j for src in (data.get('jobs'), page_batch.get('jobs')) if isinstance(src, list) for j in src if isinstance(j, dict)]
+        groups = [g for g in (data.get('job_groups') if isinstance(data.get('job_groups'), list) else []) if isinstance(g, dict)]
+        for j in jobs + groups:
+            if 'batch_id' in j:
+                ids.add(j['batch_id'])
+        if 'id' in page_batch:
+            ids.add(page_batch['id'])
         if 'batch_id' in data:
             ids.add(data['batch_id'])
+        if 'id' in data and path.endswith('/batches/{batch_id}'):
+            ids.add(data['id'])
         listed = sorted(ids)
         for bid in ids:
             if bid != target:
-                viol.append((f'read-returns-other-batch:{path}', f'{who}: response contains data of batch {bid}'))
+                b = truth['batches'].get(bid)
+                what = 'which the caller may not read at all' if not readable_batch(bid) else 'which is not the batch in the URL'
+                viol.append((f'read-returns-other-batch:{path}', f'{who}: response contains rows of batch {bid} ({b}) {what}'))
+        m = re.search(r'/job-groups/{job_group_id}/(jobs|job-groups)$', path)
+        url_group = int(url_params['job_group_id']) if m and url_params and 'job_group_id' in url_params else (0 if path.endswith(('/jobs', '/job-groups')) else None)
+        if url_group is not None and path.endswith('/jobs'):
+            for j in jobs:
+                if j.get('batch_id') != target:
+                    continue
+                g = truth['job_group_of'].get((j['batch_id'], j['job_id']))
+                anc = truth['group_ancestors'].get((target, g), {})
+                ok = (g == url_group) if not recursive else (url_group in anc)
+                if not ok:
+                    viol.append((f'read-returns-other-group:{path}', f'{who}: job {j["job_id"]} of group {g} listed under group {url_group} '
+                                 f'(recursive={recursive})'))
+        if url_group is not None and path.endswith('/job-groups'):
+            for g in groups:
+                if g.get('batch_id') == target and truth['group_ancestors'].get((target, g['job_group_id']), {}).get(url_group) != 1:
+                    viol.append((f'read-returns-other-group:{path}', f'{who}: job group {g["job_group_id"]} is not a child of group {url_group}'))
     try:
         resp._c14_listed = listed
     except AttributeError:
@@ -991,6 +1109,8 @@ def all_cases(tier='quick'):
                 break
             for caller in callers:
                 for v in range(len(vs)):
+                    if vs[v][5] == 'q' and tier == 'quick' and caller not in Q_CALLERS_QUICK:
+                        continue   # (the thorough tier sends every search query as every caller)
                     cases.append((i, caller, target, v))
     return cases, unclassified, norequest
 
